@@ -385,6 +385,18 @@ Fixpoint print_tref (t : tref) : str :=
 
 Definition nonempty (s : str) : bool := match s with [] => false | _ => true end.
 
+(* the lines of the block form of a description: the first one goes on its
+   own line (after a line break and the indent) unless it starts with white
+   space, in which case it follows the opening quotes directly *)
+Fixpoint block_lines (hlw : bool) (indent : str) (i : nat) (ls : list str) : list str :=
+  match ls with
+  | [] => []
+  | l :: r =>
+      ((if Nat.eqb i 0 && negb hlw then nl else [])
+       ++ (if negb (Nat.eqb i 0) || negb hlw then indent else [])
+       ++ escape_triple l) :: block_lines hlw indent (S i) r
+  end.
+
 Section Printer.
   Variable o : popts.
   Variable E : env.
@@ -404,15 +416,7 @@ Section Printer.
     then escape_triple first
     else
       let hlw := match first with c :: _ => py_space c | [] => false end in
-      let fix go (i : nat) (ls : list str) : list str :=
-        match ls with
-        | [] => []
-        | l :: r =>
-            ((if Nat.eqb i 0 && negb hlw then nl else [])
-             ++ (if negb (Nat.eqb i 0) || negb hlw then indent else [])
-             ++ escape_triple l) :: go (S i) r
-        end in
-      join nl (go 0 lines) ++ nl ++ indent.
+      join nl (block_lines hlw indent 0 lines) ++ nl ++ indent.
 
   (* print_description(definition, depth, first_in_block) *)
   Definition print_description (d : option str) (depth : nat) (first_in_block : bool) : str :=
